@@ -146,6 +146,34 @@ example : Ex.result.FullyTyped ∧ Ex.result.Declared ⟨[("a", Ex.nat), ("f", t
   · simp [Ex.result, Skel.FullyTyped, Ty.noInternal, Ex.nat, Ex.bool, Ex.eqT, Ty.internals, Ty.internalsL]
   · simp [Ex.result, Skel.Declared, List.lookup, Ex.nat]
 
+namespace Ex
+/-- `a :: 'a` declared as a variable, `?s :: ?'a` declared as a schematic variable -/
+def ctxTS : Ctx := ⟨[("a", .tvar "a")], [("s", .stvar (.user "a"))], Ex.ctx.sig⟩
+def isErr (e : Err) (r : Except Err Skel) : Bool := match r with | .error e' => e == e' | _ => false
+end Ex
+
+/-- the model keeps the type variable `'a`, the schematic type variable `?'a`, a type variable that is
+merely *called* `_t0`, and the internal variable `?'_t0` apart: `?s = a` is a clash, `x = (y::'_t0)` is
+inferred at the rigid `'_t0`, `(y::'_t0) = (0::nat)` is a clash; `x` and `?x` are different variables. -/
+example : Ex.isErr .clash (typeInfer Ex.ctxTS 20 true
+    (.comb (.comb (.const "equals" none) (.svar "s" none)) (.var "a" none))) = true := by decide +kernel
+example : Ex.isErr .clash (typeInfer Ex.ctx 20 true
+    (.comb (.comb (.const "equals" none) (.var "x" (some (.tvar "a")))) (.var "y" (some (.stvar (.user "a")))))) = true := by
+  decide +kernel
+example : (typeInfer Ex.ctx 20 true
+    (.comb (.comb (.const "equals" none) (.var "x" none)) (.var "y" (some (.tvar "_t0"))))).toOption =
+    some (.comb (.comb (.const "equals" (some (Ex.eqT (.tvar "_t0")))) (.var "x" (some (.tvar "_t0")))) (.var "y" (some (.tvar "_t0")))) := by
+  decide +kernel
+example : Ex.isErr .clash (typeInfer Ex.ctx 20 true
+    (.comb (.comb (.const "equals" none) (.var "y" (some (.tvar "_t0")))) (.const "zero" (some Ex.nat)))) = true := by
+  decide +kernel
+example : (typeInfer Ex.ctx 20 true
+    (.comb (.comb (.const "conj" none) (.comb (.comb (.const "equals" none) (.svar "x" none)) (.const "zero" (some Ex.nat))))
+      (.var "x" none))).toOption =
+    some (.comb (.comb (.const "conj" (some (tfun Ex.bool (tfun Ex.bool Ex.bool))))
+      (.comb (.comb (.const "equals" (some (Ex.eqT Ex.nat))) (.svar "x" (some Ex.nat))) (.const "zero" (some Ex.nat))))
+      (.var "x" (some Ex.bool))) := by decide +kernel
+
 /-- the fixed model rejects the three-variable cycle `x y ∧ y z ∧ z x` that escaped the original occurs check -/
 example : typeInfer Ex.ctx 20 true
     (.comb (.comb (.const "conj" none) (.comb (.var "x" none) (.var "y" none)))
